@@ -282,9 +282,17 @@ TwinFails(r, net, par, opts, x, u, d) ==
 
 \* turn-rate scaling (C14): the record's network has the turn rates of every node scaled; base_beta are the originals
 ScaleFails(r, net, par, opts, x, u, d) ==
-  IF r.rel.kind # "scale" THEN {}
-  ELSE LET bnet == [net EXCEPT !.links = [l \in DOMAIN net.links |-> [net.links[l] EXCEPT !.beta = P(r.rel.base_beta[l])]]]
-       IN IF StepOpt(bnet, par, opts, x, u, d) = StepOpt(net, par, opts, x, u, d) THEN {} ELSE {<<"model.scale", "">>}
+  (IF r.rel.kind # "scale" THEN {}
+   ELSE LET bnet == [net EXCEPT !.links = [l \in DOMAIN net.links |-> [net.links[l] EXCEPT !.beta = P(r.rel.base_beta[l])]]]
+        IN IF StepOpt(bnet, par, opts, x, u, d) = StepOpt(net, par, opts, x, u, d) THEN {} ELSE {<<"model.scale", "">>})
+  \cup
+  \* the related network (other construction order / names / scaled turn rates) stepped by the real library
+  \* from the same values gives the same next states as the base network did
+  (IF r.rel.kind = "none" \/ ~r.rel.has_base \/ ~r.obs.np.has \/ ~r.obs.np.ok THEN {}
+   ELSE LET xc == ClampInit(opts, x)
+        IN {<<"rel.y", r.rel.kind, s>> : s \in {s \in StateSlots(net) :
+              ~(RIsNaN(ObsY(net, r.rel.base_y, s)) /\ RIsNaN(ObsY(net, r.obs.np.y, s))) /\
+              ~RClose(ObsY(net, r.obs.np.y, s), ObsY(net, r.rel.base_y, s), TolX, ScaleOf(net, par, xc, u, d, s))}})
 
 \* ---- the verdict on one record ----------------------------------------------------------------------
 Verdict(r) ==
